@@ -148,6 +148,20 @@ def poll_into(e, st, ref, cx, t, transforms=()):
     fn = None
     if isinstance(fut, VAgg) and fut.extra and fut.extra.get('body') is not None:
         fn = fut.extra['body']
+    if fn is None and isinstance(fut, VAgg) and fut.name == 'StreamNext':
+        # Next<'_, PollFn<Box<dyn FnMut>>>: poll the stream = call the boxed closure
+        sref = peel(e, st, fut.fields[('f', 0)])
+        pf = _load(e, st, sref)
+        if isinstance(pf, VAgg) and pf.name == 'PollFn':
+            cref = peel(e, st, pf.fields[('f', 0)])
+            clo = _load(e, st, cref)
+            body = e.resolve_closure(st, clo)
+            if not transforms:
+                e.push_call(st, body, [VRef(cref.root, cref.path, True), cx], ret_dest=t.dest, ret_bb=t.target, unwind_bb=t.unwind)
+                return None
+            st.meta['conts'] = st.meta.get('conts', []) + [('poll_result', (t.dest, t.target, tuple(transforms)))]
+            e.push_call(st, body, [VRef(cref.root, cref.path, True), cx], ret_dest=None, ret_bb=-1, unwind_bb=t.unwind, tag='cont')
+            return None
     if fn is None and isinstance(fut, VAgg) and fut.name == 'PollFn':
         clo_ref = VRef(ref.root, ref.path + (('f', 0),), True)
         clo = _load(e, st, clo_ref)
